@@ -174,9 +174,11 @@ CLAIMED = {
                 "OperationalError raised by statement k; process death (os._exit in a forked child) before / after statement k "
                 "and before / after commit} runs on a fresh copy of the pre-image; the file must equal exactly the pre-image or "
                 "the post-image (full rows), pragmas clean, everything stored before still retrievable, and the same operation "
-                "repeatable. A second check covers operations the store rejects by itself part-way.",
+                "repeatable. A second check covers operations the store rejects by itself part-way; a third kills (os._exit in a "
+                "forked child) uploads of 70 000 / 120 000 points, whose transaction does not fit the storage layer's page cache, "
+                "before commit / after the last statement: the next process must find the pre-image.",
         "note": "Faults act at Python-visible boundaries (a counting sqlite3 shim installed from the harness); atomicity of "
-                "SQLite's own commit under process death is assumed.",
+                "SQLite's own commit under process death is assumed (power loss and torn pages are out of reach).",
         "technique": "fault injection: exhaustive statement-position x fault-kind enumeration per generated scenario with a pre-/post-image oracle",
         "category": "fault_enumeration",
     },
